@@ -46,6 +46,10 @@ def kinds():
     ks.append(("chunk-signed", C08.chunked_request([b"a" * 5, b"b" * 7, b"c" * 3])))
     ks.append(("post-form", A.post_form(content=b"line1\r\nline2\r\n--\r\n----x")))
     ks.append(("post-form-trailing-field", A.post_form(content=b"first line\r\nsecond line\r\n\r\r\n\r", trailing_fields=[("submit", "Upload to Amazon S3")])))
+    lead = A.post_form(content=b"after a leading CRLF\r\n")
+    lb = b"\r\n" + bytes.fromhex(lead["body"])          # RFC 2046 allows a CRLF before the first boundary
+    lead = dict(lead, body=lb.hex(), headers=[[k, str(len(lb)) if k == "content-length" else v] for k, v in lead["headers"]])
+    ks.append(("post-form-leading-crlf", lead))
     return ks
 
 
@@ -63,9 +67,8 @@ def run(rep, tier):
         scs, labels = [], []
         parts = partitions(len(body))
         if kname.startswith("post-form"):
-            # every two-frame cut from the start of the file part to the end of the body
-            fstart = body.find(b"filename=")
-            parts = parts + [p_ for p_ in every_cut(body, fstart) if p_[0] not in dict(parts)]
+            # every two-frame cut of the whole body (first boundary line, fields, file part, closing boundary)
+            parts = parts + [p_ for p_ in every_cut(body, 1) if p_[0] not in dict(parts)]
         for pname, sizes in parts:
             for variant in ("ready", "pending", "empty"):
                 if variant != "ready" and pname not in ("whole", "thirds", "cut@%d" % (len(body) // 2)):
